@@ -32,6 +32,28 @@ func callName(ci ssa.CallInstruction) string {
 
 // condName gives a stable name to a boolean condition: field:<f>, call:<f>, cmp:<field><op><const>.
 func condName(v ssa.Value) (name string, flipped bool) {
+	// one bit of a flag word kept in a field: w.flags&K != 0, w.flags.has(K)
+	if k, ok := flagBitTested(v); ok {
+		var word ssa.Value
+		switch x := v.(type) {
+		case *ssa.Call:
+			word = x.Call.Args[0]
+		case *ssa.BinOp:
+			for _, side := range []ssa.Value{x.X, x.Y} {
+				if and, ok := side.(*ssa.BinOp); ok && and.Op == token.AND {
+					word = and.X
+					if _, isK := constInt(and.X); isK {
+						word = and.Y
+					}
+				}
+			}
+		}
+		if u, ok := word.(*ssa.UnOp); ok && u.Op == token.MUL {
+			if fa, ok := u.X.(*ssa.FieldAddr); ok {
+				return fmt.Sprintf("bit:%s&%d", fieldName(fa), k), false
+			}
+		}
+	}
 	switch x := v.(type) {
 	case *ssa.UnOp:
 		if x.Op == token.NOT {
